@@ -564,6 +564,13 @@ def execute(case):
     s7 = make_scheduler(I, robjs)
     o7, sc7 = guarded(lambda: s7.calc(w))
     case["rep"].append(slim(o7, sc7))
+    # (5) Resource objects that were used by a scheduler with another project start / deadline (other times of day)
+    robjs2 = [pj.Resource(rname_of(r["name"]), cal.build(r["expr"])) for r in I["resources"] if r["supplied"]]
+    J = dict(I, pstart=I["pstart"] + (547 if I["dir"] == "fwd" else -547))
+    guarded(lambda: make_scheduler(J, robjs2).calc(w))
+    s8 = make_scheduler(I, robjs2)
+    o8, sc8 = guarded(lambda: s8.calc(w))
+    case["rep"].append(slim(o8, sc8))
     # another clock value at or before the project start
     fends = [t["fend"] for t in I["tasks"] if t["fend"] != MISSING]
     now2 = I["now"] - 3 * DAY - 417 if case["id"] % 2 else I["pstart"]
